@@ -665,9 +665,32 @@ fn run_write(sc: &Value) -> Value {
         let dir = PathBuf::from(sc["dir"].as_str().unwrap());
         // marker for the kill-point counter: everything before this line is start-up
         let _ = std::fs::metadata(dir.join("MARK"));
+        // injected environment faults for the tag writer:
+        //  "fsize": N  -> RLIMIT_FSIZE = N bytes (SIGXFSZ ignored): a write beyond N bytes fails part-way (EFBIG),
+        //                 which is what a full volume / quota looks like to write(2)
+        //  "drop_uid": u -> the process gives up root, so a root-owned directory is read-only for it
+        if let Some(n) = sc.get("fsize").and_then(|v| v.as_u64()) {
+            unsafe {
+                libc::signal(libc::SIGXFSZ, libc::SIG_IGN);
+                let lim = libc::rlimit { rlim_cur: n as libc::rlim_t, rlim_max: libc::RLIM_INFINITY };
+                libc::setrlimit(libc::RLIMIT_FSIZE, &lim);
+            }
+        }
+        if let Some(u) = sc.get("drop_uid").and_then(|v| v.as_u64()) {
+            unsafe {
+                libc::setgid(u as libc::gid_t);
+                libc::setuid(u as libc::uid_t);
+            }
+        }
         provision::provision_timeup(Some(dir), prov, ags).await;
+        if sc.get("fsize").is_some() {
+            unsafe {
+                let lim = libc::rlimit { rlim_cur: libc::RLIM_INFINITY, rlim_max: libc::RLIM_INFINITY };
+                libc::setrlimit(libc::RLIMIT_FSIZE, &lim);
+            }
+        }
     });
-    json!({"ok": true})
+    json!({"ok": true, "uid": unsafe { libc::getuid() }})
 }
 
 pub fn main() {
